@@ -427,3 +427,12 @@ def run(ck):
     ck.rule("C03-OBL", "each rejection demanded by the formats has its guard; the violating edge returns the error")
     evaluate(ck, prog, "C03-OBL", TABLE, floor=20)
     check_exh(ck, prog)
+    # a dictionary reset (LZMA2 control 0x01 / >= 0xE0 in the middle of a stream) must forget everything that the
+    # coding so far left in the window bookkeeping
+    from . import reinit
+    ck.rule("C03-DICTRESET", "lz_decoder_reset() re-initialises every lzma_dict member that decoding modifies")
+    reinit.check_reset_cover(ck, prog, "C03-DICTRESET", [
+        ("lz_decoder_reset", "lz_decoder.c", "lzma_dict", ("lzma_lz_decoder_init",),
+         {"limit": "set by decode_buffer() before every call of the LZ decoder"}),
+    ])
+    ck.floor("C03-DICTRESET", 5)
